@@ -215,7 +215,9 @@ CHECKS.update({
                 "put or delete whose append failed (or whose replacement of the active file failed) every later answer of every "
                 "script is the map's answer with the failed operation not applied; the record that may still sit whole in the write "
                 "buffer is dropped by the next put, delete or merge and written out by a clean close, after which the operation has "
-                "taken effect (theorems C20_continue_after_failed_write / _append, model step_r). That model is compared with the real "
+                "taken effect (theorems C20_continue_after_failed_write / _append, model step_r); and the two halves together: the process goes on "
+                "beside the torn record, and what is then on disk (all later system calls executed on the byte-level file system with "
+                "the junk in place) opens to exactly the map the process holds (C20_continue_then_restart). That model is compared with the real "
                 "store on every sweep case in which the fault hit the data write of a set or delete (results, index, counters in the "
                 "running process, everything after the restart). Not modelled: the running process after a failed fsync or rollover "
                 "behind a completed append, or after a merge pass that failed half-way (sweep only).",
